@@ -59,7 +59,9 @@ struct Spec {
     std::vector<std::vector<int>> tag_mask;   // per word: 1 = free symbolic tag, 0 = tag far below (excluded by a constraint)
     bool check_opt = true, check_mono = true, check_score = true, check_nbest = true, check_beam = true;
     bool records = false; long record_every = 1;
-    std::vector<std::pair<unsigned, unsigned>> below;   // tags constrained below every other tag of their word (a partition piece of the matrix space)
+    std::vector<std::pair<unsigned, unsigned>> below;
+    std::vector<std::pair<unsigned, unsigned>> flat;     // tags flattened by the category dictionary: constrained <= -200 (exp underflows to 0), no lower bound
+    long lo = 0; bool has_lo = false;                     // lower bound of the other tag scores (keeps exp away from underflow)   // tags constrained below every other tag of their word (a partition piece of the matrix space)
 };
 static Spec S;
 
@@ -72,6 +74,8 @@ static void read_spec(const char *path) {
         else if (k == "root") { unsigned r; in >> r; S.roots.push_back(r); }
         else if (k == "binary") { Spec::Rule r; int h; in >> r.x >> r.y >> r.cat >> h >> r.label; r.head_left = h; S.binary.push_back(r); }
         else if (k == "unary") { Spec::Rule r; in >> r.x >> r.cat >> r.label; r.y = UINT_MAX; r.head_left = true; S.unary.push_back(r); }
+        else if (k == "flat") { unsigned i, c; in >> i >> c; S.flat.push_back({i, c}); }
+        else if (k == "lo") { in >> S.lo; S.has_lo = true; }
         else if (k == "below") { unsigned i, c; in >> i >> c; S.below.push_back({i, c}); }
         else if (k == "records") in >> S.records; else if (k == "record_every") in >> S.record_every;
         else if (k == "checks") { std::string v; in >> v; S.check_opt = v.find('o') != std::string::npos; S.check_mono = v.find('m') != std::string::npos; S.check_score = v.find('s') != std::string::npos; S.check_nbest = v.find('n') != std::string::npos; S.check_beam = v.find('b') != std::string::npos; }
@@ -186,8 +190,8 @@ static std::string validate(const Node &n, bool root) {
     std::string a = validate(n.ch[0], false); if (!a.empty()) return a; return validate(n.ch[1], false);
 }
 
-static z3::expr gt(const Lin &a, const Lin &b) { return E.to_expr(a - b) > 0; }
-static z3::expr ge(const Lin &a, const Lin &b) { return E.to_expr(a - b) >= 0; }
+static z3::expr gt(const Lin &a, const Lin &b) { return sym::rel_lin(a - b, 2); }
+static z3::expr ge(const Lin &a, const Lin &b) { return sym::rel_lin(a - b, 3); }
 
 static std::string json_escape(const std::string &s) { std::string o; for (char c : s) { if (c == '"' || c == '\\') o += '\\'; o += c; } return o; }
 static std::string model_json(z3::model &m) {
@@ -250,6 +254,11 @@ int main(int argc, char **argv) {
                 if (k) E.solver->add(E.vars[tv[i][low[k]]] < E.vars[tv[i][low[k - 1]]]);
             }
         }
+        for (unsigned i = 0; i < n; i++) for (unsigned c = 0; c < T; c++) {
+            bool fl = std::find(S.flat.begin(), S.flat.end(), std::make_pair(i, c)) != S.flat.end();
+            if (fl) E.solver->add(E.vars[tv[i][c]] <= -200);
+            else if (S.has_lo) E.solver->add(E.vars[tv[i][c]] >= E.ctx.int_val((int64_t)S.lo));
+        }
         std::vector<Float> tag(n * T), dep(n * (n + 1));
         for (unsigned i = 0; i < n; i++) for (unsigned c = 0; c < T; c++) tag[i * T + c] = Float::var(tv[i][c]);
         for (unsigned i = 0; i < n; i++) for (unsigned h = 0; h <= n; h++) dep[i * (n + 1) + h] = Float::var(dv[i][h]);
@@ -278,7 +287,7 @@ int main(int argc, char **argv) {
         auto strictly_higher = [&](unsigned i, unsigned c) { z3::expr cnt = E.ctx.int_val(0); for (unsigned o = 0; o < T; o++) if (o != c) cnt = cnt + z3::ite(gt(TAG[i][o], TAG[i][c]), E.ctx.int_val(1), E.ctx.int_val(0)); return cnt; };
         auto higher_or_equal = [&](unsigned i, unsigned c) { z3::expr cnt = E.ctx.int_val(0); for (unsigned o = 0; o < T; o++) if (o != c) cnt = cnt + z3::ite(ge(TAG[i][o], TAG[i][c]), E.ctx.int_val(1), E.ctx.int_val(0)); return cnt; };
         double lnb = std::log(S.beta);
-        auto above_beta = [&](unsigned i, unsigned c) { z3::expr e = E.ctx.bool_val(true); if (S.use_beta) for (unsigned o = 0; o < T; o++) { Lin d = TAG[i][c] - TAG[i][o]; d.k -= lnb; e = e && (E.to_expr(d) >= 0); } return e; };
+        auto above_beta = [&](unsigned i, unsigned c) { z3::expr e = E.ctx.bool_val(true); if (S.use_beta) for (unsigned o = 0; o < T; o++) { Lin d = TAG[i][c] - TAG[i][o]; d.k -= lnb; e = e && sym::rel_lin(d, 3); } return e; };
         auto admitted_weak = [&](unsigned i, unsigned c) { return (strictly_higher(i, c) < E.ctx.int_val((int)S.pruning)) && above_beta(i, c); };
         auto admitted_strong = [&](unsigned i, unsigned c) { return (higher_or_equal(i, c) < E.ctx.int_val((int)S.pruning)) && above_beta(i, c); };
         bool beam_trivial = S.pruning >= T && !S.use_beta;
